@@ -51,10 +51,15 @@ func (s *Server) HandleBefore(
 		}
 	}
 
+	key := [8]byte{}
+	binary.BigEndian.PutUint64(key[:], pctx.RequestID)
 	if clientID != "" {
-		key := [8]byte{}
-		binary.BigEndian.PutUint64(key[:], pctx.RequestID)
 		s.clientIDCache.Set(key[:], []byte(clientID))
+	} else {
+		// Remove the ClientID of an earlier request with the same identifier,
+		// if any, since the identifiers start anew each time the proxy is
+		// created, while the cache is kept.
+		s.clientIDCache.Del(key[:])
 	}
 
 	return nil
